@@ -56,10 +56,17 @@ package maintenance
 // and are both re-applied on every start.
 //@ ghost var settingUsed Array[Str,Bool]
 
-// Reading a setting back returns what was recorded last (assumed: not verified
-// against the SELECT / Scan code).
-//@ func getSetting
+// Reading a setting back returns what was recorded last. The table is append-only:
+// "last" is the value with the greatest inserted_at, and a name blanked later is a
+// tombstone. That the database answers the statement this way is assumed (boundary);
+// that exactly this statement is sent is proved.
+//@ iface (github.com/ClickHouse/clickhouse-go/v2.Conn).Query(ctx, query, args)
 //@   modifies nothing
+//@ func getSetting [C19]
+//@   flag boundary
+//@   flag checks=-index,-assert
+//@   modifies nothing
+//@   at Conn).Query reads-the-latest-value-of-the-setting: arg1 == "SELECT argMax(value, inserted_at) as _value FROM " + (dist ? "settings" + "_dist" : "settings") + " WHERE fingerprint = $1 \nGROUP BY fingerprint HAVING argMax(name, inserted_at) != ''"
 //@   ensures result1 == nil ==> result0 == dbSet[name]
 //@   ensures result1 != nil ==> result0 == ""
 
